@@ -62,7 +62,7 @@ Dom == [
   \* RPC signature block
   get_req |-> <<"GetForecastRequest", "Forecast", "Empty">>, get_resp |-> <<"GetForecastResponse", "Empty", "GetForecastRequest">>,
   list_req |-> <<"ListForecastsRequest", "Empty", "GetForecastRequest">>, list_resp |-> <<"ListForecastsResponse", "Empty">>,
-  ping_req |-> <<"PingRequest", "Empty">>, ping_resp |-> <<"PingResponse", "Empty">>,
+  ping_req |-> <<"PingRequest", "Empty", "Holder.PingRequest">>, ping_resp |-> <<"PingResponse", "Empty">>,
   allow_same |-> YesNo, allow_empty_req |-> YesNo, allow_empty_resp |-> YesNo ]
 Slots == DOMAIN Dom
 Vals(s) == {Dom[s][i] : i \in 1..Len(Dom[s])}
@@ -88,6 +88,8 @@ In(w, m) == CASE m = "get" -> w.get_req [] m = "list" -> w.list_req [] m = "ping
 Out(w, m) == CASE m = "get" -> w.get_resp [] m = "list" -> w.list_resp [] m = "ping" -> w.ping_resp
 StdReq(m) == CASE m = "get" -> "GetForecastRequest" [] m = "list" -> "ListForecastsRequest" [] m = "ping" -> "PingRequest"
 StdResp(m) == CASE m = "get" -> "GetForecastResponse" [] m = "list" -> "ListForecastsResponse" [] m = "ping" -> "PingResponse"
+\* a request type is judged by its own name: "Holder.PingRequest" is the message PingRequest nested in the message Holder
+Short(t) == IF t = "Holder.PingRequest" THEN "PingRequest" ELSE t
 AllowReq(w) == w.allow_empty_req = "yes"
 AllowResp(w) == w.allow_empty_resp = "yes"
 Users(w, t) == {m \in Methods : In(w, m) = t \/ Out(w, m) = t}
@@ -108,7 +110,7 @@ SharedType(w) ==
 RpcCons(w) ==
   {A("RPC_REQUEST_RESPONSE_UNIQUE", "weather#rpc:" \o m \o "@decl") : m \in SameReqResp(w) \cup SharedType(w)}
   \cup {A("RPC_REQUEST_STANDARD_NAME", "weather#rpc:" \o m \o "@req") :
-          m \in {x \in Methods : ~(AllowReq(w) /\ In(w, x) = "Empty") /\ In(w, x) # StdReq(x)}}
+          m \in {x \in Methods : ~(AllowReq(w) /\ In(w, x) = "Empty") /\ Short(In(w, x)) # StdReq(x)}}
   \cup {A("RPC_RESPONSE_STANDARD_NAME", "weather#rpc:" \o m \o "@resp") :
           m \in {x \in Methods : ~(AllowResp(w) /\ Out(w, x) = "Empty") /\ Out(w, x) # StdResp(x)}}
 
